@@ -18,10 +18,20 @@ Definition gen_api_export_slots_ok : bool := true.
 Definition gen_glob_fetch : list bstep := [BRestore; BForeign; BSave].
 (* _cffi_backend.c invoke_callback *)
 Definition gen_invoke_callback : list bstep := [BSave; BForeign; BRestore].
-(* call_python.c cffi_call_python (no return between save and restore) *)
+(* call_python.c cffi_call_python (textual order; control flow: gen_call_python_cfg) *)
 Definition gen_call_python : list bstep := [BSave; BForeign; BRestore].
 (* _cffi_backend.c b_get_errno *)
 Definition gen_get_errno : list estep := [ERestoreOnly; EReadErrno; EZeroErrno].
 (* _cffi_backend.c b_set_errno (after the range check) *)
 Definition gen_set_errno : list estep := [EAssignErrno; ESaveOnly; EZeroErrno].
 Definition gen_set_errno_range : Z * Z := (-2147483648, 2147483647)%Z.
+(* call_python.c cffi_call_python: the whole body, statement by statement *)
+Definition gen_call_python_cfg : list cstmt :=
+  [CPure; CPure; CSave; CIf (* externpy.reserved1 == NULL *) [CPure] [CNoise NGilEnsure; CIf (* externpy.reserved1 != _current_interp_key *) [CNoise NUpdateCache] []; CIf (* !err *) [CInvoke] []; CNoise NGilRelease]; CIf (* err *) [CPure; CNoise NReport; CNoise NMemset] []; CRestore].
+(* _cffi_backend.c invoke_callback: the whole body *)
+Definition gen_invoke_callback_cfg : list cstmt :=
+  [CSave; CNoise NGilEnsure; CInvoke; CNoise NGilRelease; CRestore].
+(* _cffi_backend.c general_invoke_callback: no errno / save_errno / restore_errno in its body (incl. the error: path) *)
+Definition gen_general_invoke_callback_leaves_bracket_alone : bool := true.
+(* all .c and .h files of src/c: every call of general_invoke_callback() is in cffi_call_python or invoke_callback *)
+Definition gen_general_invoke_callback_only_called_inside_brackets : bool := true.
